@@ -127,6 +127,98 @@ def byte_literal(tok):
     return list(m.group(1).encode('latin-1').decode('unicode_escape').encode('latin-1'))
 
 
+CENSUS_CALLEES = [('stream::write', r'\bstream::write\('), ('.send_data', r'\.send_data\('),
+                  ('.poll_send', r'\.poll_send\('), ('.poll_finish', r'\.poll_finish\(')]
+
+
+def strip_test_modules(text):
+    """blank out `#[cfg(test)] mod x { ... }` blocks (keeping offsets)"""
+    out = text
+    for m in list(re.finditer(r'#\[cfg\(test\)\]\s*(?:pub(?:\([^)]*\))?\s+)?mod\s+\w+\s*\{', text)):
+        i = text.index('{', m.start())
+        j = match_close(text, i)
+        out = out[:m.start()] + re.sub(r'[^\n]', ' ', text[m.start():j + 1]) + out[j + 1:]
+    return out
+
+
+def fn_ranges(text):
+    res = []
+    for m in re.finditer(r'\bfn\s+(\w+)', text):
+        i, depth = m.end(), 0
+        while i < len(text):
+            c = text[i]
+            if c in '([':
+                depth += 1
+            elif c in ')]':
+                depth -= 1
+            elif c == '{' and depth == 0:
+                break
+            elif c == ';' and depth == 0:
+                i = -1
+                break
+            i += 1
+        if i < 0 or i >= len(text):
+            continue
+        try:
+            j = match_close(text, i)
+        except AnchorLost:
+            continue
+        res.append((i, j, m.group(1)))
+    return res
+
+
+def write_site_census(repo):
+    """(file, enclosing fn, callee, head of the first argument) of every call that hands bytes or a FIN to a send stream,
+    in every non-test source file of h3/src"""
+    import os
+    import hashlib
+    root = os.path.join(repo, 'h3', 'src')
+    sites = []
+    for d, dirs, files in sorted(os.walk(root)):
+        dirs.sort()
+        if os.path.basename(d) == 'tests':
+            dirs[:] = []
+            continue
+        for fn in sorted(files):
+            if not fn.endswith('.rs') or fn == 'tests.rs':
+                continue
+            path = os.path.join(d, fn)
+            rel = os.path.relpath(path, os.path.join(repo, 'h3', 'src'))
+            src = Source(path)
+            text = strip_test_modules(src.text)
+            ranges = fn_ranges(text)
+            found = []
+            for name, pat in CENSUS_CALLEES:
+                for m in re.finditer(pat, text):
+                    pos = m.end() - 1
+                    try:
+                        close = match_close(text, pos, '(', ')')
+                    except AnchorLost:
+                        raise AnchorLost('census: unbalanced call in ' + rel)
+                    args, arg, depth = [], [], 0
+                    for ch in text[pos + 1:close]:
+                        if ch in '([{':
+                            depth += 1
+                        elif ch in ')]}':
+                            depth -= 1
+                        elif ch == ',' and depth == 0:
+                            args.append(''.join(arg))
+                            arg = []
+                            continue
+                        arg.append(ch)
+                    args.append(''.join(arg))
+                    head = ','.join(re.sub(r'\s+', '', a)[:44] for a in args[:2] if a.strip())
+                    encl = [(j - i, nm) for i, j, nm in ranges if i <= m.start() <= j]
+                    fnname = min(encl)[1] if encl else '-'
+                    found.append((m.start(), rel, fnname, name, head))
+            for _, rel, fnname, name, head in sorted(found):
+                txt = '%s|%s|%s|%s' % (rel, fnname, name, head)
+                sites.append((txt, int(hashlib.sha256(txt.encode()).hexdigest()[:12], 16)))
+    if len(sites) < 5:
+        raise AnchorLost('write-site census found too little')
+    return sites
+
+
 def extract(repo):
     f, spans = {}, {}
     fr = Source(repo + '/h3/src/proto/frame.rs')
@@ -424,6 +516,7 @@ def extract(repo):
     body, spans['send_trailers'] = cn.fn_body('send_trailers')
     if not re.search(r'stream::write\(&mut\s+self\.stream,\s*Frame::Headers\(block\.freeze\(\)\)\)', body):
         raise AnchorLost('RequestStream::send_trailers')
+    f['write_sites'] = write_site_census(repo)
     # config.rs: TryFrom<Config> for frame::Settings
     cf = Source(repo + '/h3/src/config.rs')
     f['setting_ids'], spans['setting_identifiers'] = macro_table(fr, 'setting_identifiers')
@@ -527,4 +620,9 @@ def render(f):
     for name, a, b in f['config_inserts']:
         rows.append('(None, %d)' % a if name == 'grease' else '(Some %d, %d)' % (a, b))
     L.append('Definition config_inserts : list (option N * N) := [%s].' % '; '.join(rows))
+    L.append('(* CENSUS of the calls that hand bytes or a FIN to a send stream in the non-test sources of h3/src:')
+    L.append('   file | enclosing fn | callee | head of the first argument, each as the first 48 bits of its SHA-256 *)')
+    L.append('Definition write_sites : list N := [')
+    L.append(';\n'.join('  %d (* %s *)' % (h, t.replace('*)', '* )')) for t, h in f['write_sites']))
+    L.append('].')
     return '\n'.join(L) + '\n'
